@@ -17,6 +17,8 @@ Definition t_terr (e : terr) : tree :=
   | TENetcode e => TL [TN 2; t_nerr e]
   end.
 
+Definition t_addrs_list (l : list addr) : tree := TL (map t_addr l).
+
 Definition t_dgrams (l : list dgram) : tree := TL (map (fun ab => TL [t_addr (fst ab); TB (snd ab)]) l).
 
 (* canonical order of what the server sent: by destination, per destination in emission order *)
@@ -133,6 +135,15 @@ Definition tstep (w : tworld) (op : tree) : tworld * tree :=
   | TL [TN 229; TN m] =>
       on_ts w (fun t rs => Ok ({| ts_net := set_max_clients (ts_net t) m; ts_in := ts_in t |}, rs, TL []))
   | TL [TN 230; TN dt] => on_ts w (fun t rs => do rs' <- of_pres (srv_update rs dt); Ok (t, rs', TL []))
+  (* the transports' own getters *)
+  | TL [TN 233] =>
+      on_ts w (fun t rs => let s := ts_net t in
+        Ok (t, rs, TL [TN (connected_count s); TN (ns_max s); t_addrs_list (ns_addrs s);
+                       TL (map (fun id => TL [TN id; topt t_addr (NServer.client_addr s id); topt TB (NServer.user_data s id)])
+                               (NServer.clients_id s))]))
+  | TL [TN 234; TN k] =>
+      on_tc w k (fun t rc => let c := tc_net t in
+        Ok (t, rc, TL [TN (ct_client_id (cl_token c)); topt t_creason (NClient.disconnect_reason c); TN (cl_now c - cl_last_recv c)]))
   | TL [TN 232; TN k] => on_tc w k (fun t rc => let rc' := Conn.disconnect rc in Ok (t, rc', t_status (c_status rc')))
   | TL [TN 231; TN k; TN dt] => on_tc w k (fun t rc => do rc' <- of_pres (update rc dt); Ok (t, rc', t_status (c_status rc')))
   | _ => (w, T_BAD_OP)
